@@ -83,6 +83,12 @@ func validateJSONPointer(msg *json.RawMessage, member string) error {
 		return fmt.Errorf("%s: invalid %s", patch.JSONPatch, member)
 	}
 
+	// a non-empty JSON pointer starts with '/' (RFC 6901); the patch engine would otherwise
+	// silently skip everything before the first '/'
+	if pointer != "" && !strings.HasPrefix(pointer, "/") {
+		return fmt.Errorf("%s: invalid %s", patch.JSONPatch, member)
+	}
+
 	if strings.HasPrefix(pointer, "/"+document.ServiceProperty) {
 		return fmt.Errorf("%s: cannot modify services", patch.JSONPatch)
 	}
